@@ -10,6 +10,17 @@ ALL = ['C%02d' % i for i in range(1, 21)]
 
 # id -> (category, technique, text, level_note, design_ref)
 CHECKS = {
+    'C02': ('model_checking',
+            'operator extraction by basis exhaustion (all unit densities) for every kernel x grid tuple x parameter lattice, against the documented scheme coded twice in exact Fractions (assembly form and flux form)',
+            'For each of the 15 per-axis kernels, the 5 precomputed-coefficient kernels and the tridiagonal solver the complete N x N one-sweep '
+            'operator is extracted from the compiled code by applying it to every unit density, and compared entry by entry (1e-10 of the largest '
+            'entry) with the exact rational solution of the documented scheme; the two reference codings must agree exactly first. Drivers '
+            'one_pop..five_pops are run for T <= one time step with parameters passed as constants and as functions of time (all, one size, theta0 '
+            'only) and compared with each other (1e-12) and with inject -> sweep -> ... of the reference, for the zero density and every unit density.',
+            'Arrays have equal length on every axis (as all drivers use them; the .pyx loop bounds are only right for those and Cython is not '
+            'available to rebuild them). Lines on which elimination without pivoting has a (near-)zero pivot get a proportionally wider tolerance '
+            'and are counted in evidence. delj-on references are float (exp); quick tier thins the parameter lattice (cap reported).',
+            'DESIGN.md §3 C02'),
     'C07': ('model_checking',
             'exhaustive enumeration of (k, all k! grid orderings, degree basis, mode, result type, call style) against an exact Fraction Lagrange oracle',
             'Every configuration of the bounded space (k=1..7 grid sizes, every ordering, every monomial degree <k plus a full-degree '
